@@ -138,6 +138,7 @@ func scenarioC04(x *runner.X) {
 		meta = append(meta, mkv{r.Bytes(1 + r.Intn(20)), r.Bytes(r.Intn(60))})
 	}
 	readerKind := t.Intn(4) // 0 simos file, 1 mmap, 2 ReaderAt eof-variant, 3 ReaderAt plain
+	staleTmp := t.Bool(0.08)
 	prefetch := t.Bool(0.4)
 	x.Digest(valueSize, bucketKnob, n, declared, mode, disk, readerKind, nMeta, dsim.HashBytes(kvs[0].k))
 	x.Note("keys", n)
@@ -152,6 +153,21 @@ func scenarioC04(x *runner.X) {
 	build := func(tag string, order []int, plan *fault.Plan) (path string, err error, allNil bool) {
 		tmp := filepath.Join(dir, "tmp-"+tag)
 		os.MkdirAll(tmp, 0o755)
+		if staleTmp && plan == nil {
+			// an earlier indexing run died in this scratch directory: its builder was never closed and
+			// its spill files, holding other data, are still there
+			if old, err := NewBuilderSized(tmp, uint(declared), uint(valueSize)); err == nil {
+				for k := 0; k < len(kvs) && k < 50; k++ {
+					old.Insert(kvs[k].k, r.Bytes(valueSize))
+				}
+				// it got as far as sealing (the spill files are flushed to disk) but never cleaned up
+				if sf, err := simos.OpenFile(filepath.Join(dir, "stale-"+tag), os.O_CREATE|os.O_RDWR|os.O_TRUNC, 0o644); err == nil {
+					old.Seal(context.Background(), sf)
+					sf.Close()
+				}
+				x.Probe("c04.stale-scratch-directory")
+			}
+		}
 		if plan != nil {
 			fault.Install(plan)
 			defer fault.Stop()
